@@ -27,7 +27,7 @@ import (
 )
 
 type Fault struct {
-	Kind string `json:"kind"` // flip trunc gzflip gztrunc rm dup swap rename inject sumrm sumdup sumswap gzappend
+	Kind string `json:"kind"` // flip trunc gzflip gztrunc rm dup swap rename inject sumrm sumdup sumswap gzappend gzmember
 	Off  int    `json:"off,omitempty"`
 	Mask int    `json:"mask,omitempty"`
 	A    int    `json:"a,omitempty"`
@@ -311,6 +311,19 @@ func (a *archive) apply(f Fault) (verdict, bool) {
 		// extra uncompressed bytes after the tar end-of-archive marker, inside the gzip stream
 		d := append(bytes.Clone(a.plain), bytes.Repeat([]byte{byte(f.Mask | 1)}, f.A+1)...)
 		return verdict{region: "gzappend", gz: true, data: gzipOf(d)}, true
+	case "gzmember":
+		// a second gzip member after the valid one: it carries an unexpected tar member, a second
+		// copy of a known member, or a second whole archive
+		var extra []byte
+		switch f.A {
+		case 0:
+			extra = gzipOf(rebuildTar(a.members, a.plain, []int{-1}, nil, &member{name: f.Name}, []byte("x")))
+		case 1:
+			extra = gzipOf(rebuildTar(a.members, a.plain, []int{1}, nil, nil, nil))
+		default:
+			extra = a.gz
+		}
+		return verdict{mustReject: true, region: "gzmember", gz: true, data: append(bytes.Clone(a.gz), extra...)}, true
 	case "rm":
 		if f.A < 0 || f.A >= len(a.members) {
 			return verdict{}, false
@@ -537,6 +550,9 @@ func (World) execute(pl simkit.Plan, r *simkit.Run) *simkit.Violation {
 	}
 	for n := 0; n < 3; n++ {
 		if v := run(Fault{Kind: "gzappend", A: n * 300, Mask: n}); v != nil {
+			return v
+		}
+		if v := run(Fault{Kind: "gzmember", A: n, Name: "nope"}); v != nil {
 			return v
 		}
 	}
